@@ -210,8 +210,12 @@ theorem detach_iff_finished (s : Nat) (hs : s < Gen.GC.statusNames.length) :
 
 /-! ### tie to the source: the generated mark-site table is the field list the model's constructors mirror -/
 
-/-- Every marking call of gc.c's `janet_mark_*` functions and of the gcmark / event callbacks (regenerated from the
-current source on every run).  A removed, added or re-routed mark line changes `Gen.GC.markSites` and breaks this. -/
+/-- Every marking call of gc.c's `janet_mark_*` functions and of the gcmark / event callbacks of the abstract types
+(streams, channels, parser, peg, processes, file watchers, ffi signatures and struct types), regenerated from the current
+source on every run.  A removed, added or re-routed mark line changes `Gen.GC.markSites` and breaks this.
+The ffi rows say what a signature holds: the struct type of its RETURN value and of each argument.  On the tree without
+the first `signature_mark` row this obligation fails and corpus/C01/edges/ffi_signature_ret_struct.janet is the failing
+scenario (the return struct type is freed while the signature is alive; `ffi/call` reads freed memory). -/
 theorem markSites_as_modelled : Gen.GC.markSites = [
   ("janet_mark_string", "janet_gc_mark", "janet_string_head(str)"),
   ("janet_mark_buffer", "janet_gc_mark", "buffer"),
@@ -281,6 +285,15 @@ theorem markSites_as_modelled : Gen.GC.markSites = [
   ("janet_proc_mark", "janet_mark", "janet_wrap_abstract(proc->in)"),
   ("janet_proc_mark", "janet_mark", "janet_wrap_abstract(proc->out)"),
   ("janet_proc_mark", "janet_mark", "janet_wrap_abstract(proc->err)"),
+  ("janet_filewatch_mark", "janet_mark", "janet_wrap_fiber(ow->fiber)"),
+  ("janet_filewatch_mark", "janet_mark", "janet_wrap_abstract(ow->stream)"),
+  ("janet_filewatch_mark", "janet_mark", "janet_wrap_string(ow->dir_path)"),
+  ("janet_filewatch_mark", "janet_mark", "janet_wrap_abstract(watcher->stream)"),
+  ("janet_filewatch_mark", "janet_mark", "janet_wrap_abstract(watcher->channel)"),
+  ("janet_filewatch_mark", "janet_mark", "janet_wrap_table(watcher->watch_descriptors)"),
+  ("signature_mark", "janet_mark", "janet_wrap_abstract(sig->ret.type.st)"),
+  ("signature_mark", "janet_mark", "janet_wrap_abstract(t.st)"),
+  ("struct_mark", "janet_mark", "janet_wrap_abstract(t.st)"),
   ("ev_callback_read", "janet_mark", "janet_wrap_buffer(state->buf)"),
   ("ev_callback_write", "janet_mark", "state->is_buffer?janet_wrap_buffer(state->src.buf):janet_wrap_string(state->src.str)"),
   ("ev_callback_write", "janet_mark", "janet_wrap_abstract(state->dest_abst)")] := rfl
